@@ -294,6 +294,22 @@ Theorem C17_serve_bounded : forall limit l count bytes lookups c b k maxsz,
 Proof. exact serve_bounded. Qed.
 Print Assumptions C17_serve_bounded.
 
+(* GetBlockHeaders, all four modes (origin by hash | number) x (forward | reverse), every value
+   of Amount and Skip (with the uint64 / int wrap-arounds of the code): at most MaxHeaderFetch
+   headers, at most int(Amount), every one of them an existing header of the chain 0..H. *)
+Theorem C17_serve_headers_bounded : forall (H : N) (hashmode : bool) (origin : option N) (amount skip : N) (reverse : bool),
+  lenN (serve_headers H hashmode origin amount skip reverse) <= max_header_fetch /\
+  (Z.of_N (lenN (serve_headers H hashmode origin amount skip reverse)) <= Z.max 0 (int_of_u64 amount))%Z /\
+  Forall (fun n => n <= H) (serve_headers H hashmode origin amount skip reverse).
+Proof. exact serve_headers_bounded. Qed.
+Print Assumptions C17_serve_headers_bounded.
+
+(* the disconnect reason taken from a discMsg can be any uint64 (so DiscReason.String must be,
+   and since fix 1d41c1a is, total over uint64) *)
+Theorem C17_disc_reason_range : forall payload : bytes, disc_reason payload < two64.
+Proof. exact disc_reason_range. Qed.
+Print Assumptions C17_disc_reason_range.
+
 (* Downloader deliveries (aqua/downloader/queue.go deliver, behind DeliverBodies and
    DeliverReceipts): whatever a peer returns — more, fewer, or other entries than
    were requested, or a reply nobody asked for — the accepted entries are a prefix of
@@ -332,7 +348,8 @@ Theorem C17_net_params_pinned :
   g_auth_msg_len = 65 + 32 + 64 + 32 + 1 /\ g_auth_resp_len = 64 + 32 + 1 /\ g_ecies_overhead = 65 + 16 + 32 /\
   g_enc_auth_msg_len = g_auth_msg_len + g_ecies_overhead /\ g_enc_auth_resp_len = g_auth_resp_len + g_ecies_overhead /\
   g_enc_auth_msg_len = 307 /\ g_enc_auth_resp_len = 210 /\
-  g_handshake_timeout_ms = 5000 /\ g_frame_read_timeout_ms = 30000.
+  g_handshake_timeout_ms = 5000 /\ g_frame_read_timeout_ms = 30000 /\
+  g_disc_table_len = 17.
 Proof. exact net_params_pinned. Qed.
 Print Assumptions C17_net_params_pinned.
 
